@@ -349,6 +349,43 @@ Plan gen_plan(const Profile &pf, uint64_t seed) {
     for (auto &o : P.ops) if (m.expect(o) == 0) m.apply(o);
     Rng rr = rng_derive(seed, "reads");
     gen_reads(pf, P, m, rr);
+    if (pf.misuse) {
+        // ---- misuse profile: perturb the conforming program (ids 0..65535, duplicates, wrong types, windows outside, zero / huge lengths, extreme parameters)
+        Rng x = rng_derive(seed, "misuse");
+        auto weird_id = [&](int cur) { int c = (int) x.below(6); return c == 0 ? (int) x.range(0, 65535) : c == 1 ? (int) x.range(256, 300) : c == 2 ? 0 : c == 3 ? 255 : c == 4 ? (int) x.range(1, 255) : cur; };
+        static const uint32_t extreme[] = {0, 1, 2, 9, 10, 11, 255, 256, 257, 65535, 65536, 1000000, 0x7fffffffu, 0xfffffffeu, 0xffffffffu};
+        std::vector<Op> ops2;
+        for (auto &o0 : P.ops) {
+            Op o = o0;
+            if (o.kind != OP_CLOSE && x.chance(0.25)) {
+                switch (o.kind) {
+                    case OP_SRC: o.src = weird_id(o.src); break;
+                    case OP_SIG: { int c = (int) x.below(5); if (c == 0) o.sig = weird_id(o.sig); else if (c == 1) o.src = weird_id(o.src); else if (c == 2) o.sigtype = (int) x.pick(std::vector<int>{0, 1, 2, 7, 255});
+                                   else { int f = (int) x.range(0, 6); o.p[f] = extreme[x.below(15)]; if (x.chance(0.3)) { int f2 = (int) x.range(1, 4); o.p[f2] = extreme[x.below(15)]; } } break; }
+                    case OP_FSR: { int c = (int) x.below(4); if (c == 0) o.sig = weird_id(o.sig); else if (c == 1) o.n = 0; else if (c == 2) o.n = x.range(1, 300000); else o.d = x.range(-100000, 100000); break; }
+                    case OP_OMIT: o.sig = weird_id(o.sig); o.en = (int) x.pick(std::vector<int>{0, 1, 2, 255, -1}); break;
+                    case OP_ANNO: { int c = (int) x.below(4); if (c == 0) o.sig = weird_id(o.sig); else if (c == 1) o.st = (int) x.pick(std::vector<int>{0, 1, 2, 3, 4, 15, 255, 256}); else if (c == 2) o.at = (int) x.pick(std::vector<int>{0, 3, 4, 200, 255, 256, 100000}); else o.a = x.chance(0.5) ? INT64_MIN / 2 : INT64_MAX / 2; break; }
+                    case OP_UTC: { int c = (int) x.below(3); if (c == 0) o.sig = weird_id(o.sig); else if (c == 1) o.a = x.range(-1000000, 1000000); else o.b = x.chance(0.5) ? INT64_MIN / 2 : INT64_MAX / 2; break; }
+                    case OP_USER: { int c = (int) x.below(3); if (c == 0) o.st = (int) x.pick(std::vector<int>{0, 4, 15, 255}); else if (c == 1) o.meta = (int) x.range(0, 65535); else o.n = o.st == 1 ? 0 : 1; break; }
+                    default: break;
+                }
+            }
+            ops2.push_back(o);
+            if ((o.kind == OP_SRC || o.kind == OP_SIG) && x.chance(0.15)) ops2.push_back(o);          // duplicate definition
+        }
+        P.ops = ops2; P.resolve();
+        for (auto &o : P.reads) {
+            if (!x.chance(0.35)) continue;
+            int c = (int) x.below(6);
+            if (c == 0) o.sig = weird_id(o.sig);
+            else if (c == 1) o.a = x.range(-50, 50);
+            else if (c == 2) o.a = x.range(0, 200000);
+            else if (c == 3) o.n = x.chance(0.5) ? 0 : -x.range(1, 10);
+            else if (c == 4) o.n = x.range(1, (o.kind == RD_FSR || o.kind == RD_FSR_F32) ? 3000000 : (o.kind == RD_STATS ? 50000 : 5));
+            else if (o.kind == RD_STATS) o.b = x.pick(std::vector<int64_t>{0, -1, 1, 1000000000LL, INT64_MAX / 4});
+        }
+        { Op q; q.kind = RD_LEN; q.sig = (int) x.range(0, 65535); P.reads.push_back(q); q.kind = RD_S2T; q.a = x.range(-1000, 1000); P.reads.push_back(q); q.kind = RD_ANNO; q.a = 0; q.n = 0; P.reads.push_back(q); }
+    }
     return P;
 }
 
